@@ -292,7 +292,7 @@ def _case(draw):
         fail = draw(st.lists(st.sampled_from(texts), max_size=3, unique=True)) if texts else []
         parser = {'exc': draw(st.sampled_from(['ValueError', 'KeyError', 'ZeroDivisionError', 'SyntaxError',
                                                'TypeError', 'RecursionError', 'AttributeError'])),
-                  'fail_on': fail}
+                  'fail_on': fail, 'noargs': draw(st.booleans())}
     return {'items': items, 'render': render, 'sep': sep, 'parse_keys': draw(st.booleans()), 'parser': parser,
             'explicit': draw(st.booleans())}
 
@@ -377,9 +377,11 @@ def _run(case, parse_to_dict, trip):
         fail_on = set(case['parser']['fail_on'])
         exc = excs[case['parser']['exc']]
 
+        noargs = bool(case['parser'].get('noargs'))
+
         def parser(s):
             if s in fail_on:
-                raise exc(s)
+                raise exc() if noargs else exc(s)       # (an exception constructed without arguments is a failure too)
             return ('parsed', s)
         kw['parse'] = parser
 
@@ -498,15 +500,17 @@ def _run(case, parse_to_dict, trip):
                 viol.append(V('shared-literal', f'input {arg!r} kw={shown_kw}: first call gave {before!r}; after the caller '
                               f'modified the containers in that result in place, the same call gave {after!r}', 'shared-literal'))
     # a string item without the separator raises ValueError
-    nosep = 'zzz'
-    if sep not in nosep:
+    for nosep in ('zzz', '', 'z', 'zy', '12', '()', '[]', '""', '  ', 'zzzz', TRIP):
+        if sep in nosep:
+            continue
         try:
-            parse_to_dict([nosep], **kw)
-            viol.append(V('no-sep-accepted', f'string item {nosep!r} without separator {sep!r} was accepted'))
+            r = parse_to_dict([nosep], **kw)
+            viol.append(V('no-sep-accepted', f'string item {nosep!r} without separator {sep!r} was accepted: {r!r}', 'no-sep-accepted'))
         except ValueError:
             pass
         except Exception as e:  # noqa
-            viol.append(V('no-sep-wrong-exc', f'string item without separator raised {e!r} instead of ValueError'))
+            viol.append(V('no-sep-wrong-exc', f'string item {nosep!r} without separator raised {e!r} instead of ValueError',
+                          'no-sep-wrong-exc'))
 
     texts = [f['t'] for it in case['items'] for f in (it['k'], it['v']) if 't' in f]
     multi_sep = render == 'strings' and any((k + sep + v).count(sep) > 1 for k, v, _ in raw)
